@@ -169,9 +169,11 @@ func (c *FileCache[MetadataT]) Get(key CacheKey) (*Entry[MetadataT], error) {
 
 	metrics.Global.Cache.CacheHits.Increment()
 	slog.Debug("Successful cache hit", "key", key.Hex)
+	// The caller gets a snapshot: the stored metadata keeps changing under the shard lock
+	metaCopy := *entryMeta
 	return &Entry[MetadataT]{
 		Data:     dataFile,
-		Metadata: entryMeta,
+		Metadata: &metaCopy,
 		Stale:    stale,
 	}, nil
 }
@@ -253,9 +255,10 @@ func (c *FileCache[MetadataT]) Cache(key CacheKey, data io.Reader, expires time.
 		return nil, fmt.Errorf("%w: failed to seek to start of cache file '%s'", ErrCacheFileRead, fileName)
 	}
 
+	metaCopy := *meta
 	return &Entry[MetadataT]{
 		Data:     file,
-		Metadata: meta,
+		Metadata: &metaCopy,
 	}, nil
 }
 
@@ -316,5 +319,6 @@ func (c *FileCache[MetadataT]) GetMetadata(key CacheKey) (meta *EntryMetadata[Me
 	metaPtr.LastAccess = time.Now() // Now safe because we have a full Lock
 
 	slog.Debug("Successfully retrieved metadata", "key", key.Hex)
-	return metaPtr, stale, nil
+	metaCopy := *metaPtr
+	return &metaCopy, stale, nil
 }
